@@ -225,6 +225,11 @@ def c02(tier, seed):
     module, cfg, inv, n, tick = model_subsecond(tier)
     explore.explore_and_replay(rep, "pairs-subsecond", module, cfg, ("harness.nolook_check", "replay_chunk"),
                                {"maxcalls": n, "tick": tick}, set(CLAUSE_PROPS), inv, [], chunk=100)
+    # episodes that end mid-data (the account is wiped out inside a latency window, EnvFull.tla): when the call that ends the
+    # episode returns, nothing stamped after the timestep it lands on has been processed
+    from . import envfull_check
+    ms = [m for m in envfull_check.c09_models(tier) if m["name"] in ("crash-latent", "crash-latent-stay", "crash-latent-lots")]
+    envfull_check.run_models(rep, ms, {"clock_full"})
     from . import tabular_check
     tabular_check.lookahead(rep, tier, seed)
     return rep.finish()
